@@ -4,3 +4,15 @@ claim("C02", "property-based round-trip testing (Hypothesis generators, type-str
       "type-strict bisimulation. Finds counterexamples, does not establish absence.",
       "Trusted: Hypothesis, the bisimulation in vlib/compare.py, CPython. Two known findings are excluded by a predicate over the case "
       "(sub-minute UTC offsets; libyaml folding inside more-indented lines).")
+claim("C03", "grammar-based and mutation fuzzing with explicit escape/directive/header productions (Hypothesis), exception-class + mark-range + call-budget oracle",
+      "Generated search over str/bytes/stream inputs (valid renderings, grammar-aware and byte-level mutations, explicit productions, all truncations of small "
+      "documents) x scan/parse/compose_all x both back-ends; oracle: only YAMLError subclasses escape, pure-Python work stays under a call budget, error marks "
+      "lie inside the (decoded) input and pure-Python line/column equal an independent break count.",
+      "Trusted: Hypothesis, vlib/ref_marks.py, sys.monitoring call counting. Hangs inside libyaml are only caught by the run watchdog. One known finding "
+      "(UnicodeDecodeError from the C bridge on invalid UTF-8 in %XX escapes; _yaml.pyx cannot be rebuilt here).")
+claim("C05", "property-based round-trip testing of event streams (Hypothesis grammar generator) + bounded-exhaustive ill-formed sequences",
+      "Generated search: well-formed event streams x emitter options x {Dumper,CDumper} x {Loader,CLoader}, oracle = event equivalence (structure, anchors, scalar "
+      "values, tags modulo licensed elision, directives); ill-formed arm = single-edit mutants + every sequence over the 10 event kinds up to length 4 (quick) / 5 "
+      "(thorough), oracle = EmitterError or clean return.",
+      "Trusted: Hypothesis, the equivalence in vlib/gen_events.py. Known findings excluded by case predicates: libyaml folding inside more-indented lines; libyaml "
+      "dropping an empty implicit first document.")
